@@ -3,11 +3,12 @@
      2  spec flag conditions     fmt r o dy                      -> ovf unf inacc
      4  spec quantize (list)     fmt r o [dy]                    -> codes, any-ovf any-unf any-inacc
      3  NP primitive             sub-op args                     -> value   (NP-layer validation)
+    30  model conversion chain   src-fmt codes [step]            -> per step: outcome (codes, flags)
     20  model history            fmt r o status [step]           -> per step: status, callbacks fired
     10  model set_val (real)     fmt r o raw arr vd              -> codes, flags, read-back values
 *)
 From Coq Require Import ZArith List Bool.
-From FxpVerif Require Import Spec NP Store Status Wire.
+From FxpVerif Require Import Spec NP Store Status Convert Wire.
 Import ListNotations.
 Open Scope Z_scope.
 
@@ -17,6 +18,18 @@ Definition dhstep : dec hstep :=
   t <- dZ ;; match t with 0 => (a <- darr ;; vd <- dvdt ;; dret (HWrite a vd)) | _ => dret HReset end.
 Definition estatus (st : status) : list Z := ebool (st_ovf st) ++ ebool (st_unf st) ++ ebool (st_inacc st) ++ ebool (st_extp st).
 Definition ecbev (e : cbev) : Z := match e with EvOvf => 0 | EvUnf => 1 | EvInacc => 2 | EvChange => 3 end.
+
+Definition dcroute : dec croute :=
+  t <- dZ ;; dret (match t with 0 => RArray | 1 => RFxpInput VInt | _ => RFxpInput VFloat end).
+Definition dcstep : dec cstep :=
+  rt <- dcroute ;; f <- dfmt ;; r <- drmode ;; o <- domode ;; dret {| cs_route := rt; cs_fmt := f; cs_r := r; cs_o := o |}.
+(* trace of a conversion chain: the write result of every step *)
+Fixpoint convert_trace (fs : fmt) (codes : list Z) (steps : list cstep) : list (outcome wres) :=
+  match steps with
+  | [] => []
+  | s :: t => let w := convert (cs_route s) fs codes (cs_fmt s) (cs_r s) (cs_o s) in
+              w :: match w with Ok w' => convert_trace (cs_fmt s) (w_codes w') t | _ => [] end
+  end.
 
 Definition ewres (f : fmt) (w : wres) : list Z :=
   elist (fun c => [c]) (w_codes w) ++ ebool (w_ovf w) ++ ebool (w_unf w) ++ ebool (w_inacc w)
@@ -61,5 +74,9 @@ Definition dispatch (req : list Z) : list Z :=
                 (fun '(f, r, o, st, steps) =>
                    eoutcome (elist (fun p => estatus (fst p) ++ elist (fun e => [ecbev e]) (snd p)))
                             (history_run f r o st steps)) t
+  | 30 :: t => run (fs <- dfmt ;; codes <- dlist dZ ;; steps <- dlist dcstep ;; dret (fs, codes, steps))
+                (fun '(fs, codes, steps) =>
+                   elist (eoutcome (fun w => elist (fun c => [c]) (w_codes w) ++ ebool (w_ovf w) ++ ebool (w_unf w) ++ ebool (w_inacc w)))
+                         (convert_trace fs codes steps)) t
   | _ => bad_request
   end.
